@@ -25,9 +25,7 @@ TRUSTED = ["Coq 8.16.1 kernel + vm_compute", "Rust executor /verif/harness (Rat 
 ASSUMPTIONS = ["Rust semantics of Vec/usize as modelled (checked indexing, debug-profile overflow checks)",
                "the dump is canonical in the order of entries within one column (that order is not part of any view or of well-formedness)",
                "the sampled cases are where model and code were compared; the theorems are about the model"]
-UNPROVED = ["behaviour on duplicate positions and on malformed raw arrays is outside the claim: tied (model = implementation), not specified "
-            "(well-formedness and termination are proved with duplicates allowed; the agreement of the views needs duplicate-freeness: "
-            "get returns the first stored duplicate, to_dense the last)",
+UNPROVED = ["behaviour on DUPLICATE positions is outside the property's quantifier but specified and proved (block dups of Props/C06.v: get_first_duplicate, to_dense_last_duplicate, views_with_duplicates, views_agree_iff, from_triplets_duplicates, insert_with_duplicates, transpose_is_stable_sort, history_with_duplicates: get returns the first stored duplicate, to_dense the last, the products their sum, for every well-formed storage); behaviour on MALFORMED raw arrays is tied (model = implementation), not specified",
             "from_vecs is an echo of its arguments (from_vecs_wf: well-formed arrays are returned as they are); what it does with malformed arrays is tied, not specified",
             "the f64 / Complex<f64> instances are tied bitwise; nothing about C06 depends on arithmetic laws"]
 
@@ -45,7 +43,7 @@ MANIFEST = dict(
           "the empty matrix, raw-array construction, and tie-only malformed/duplicate/out-of-range streams; a dictionary-of-keys "
           "reference plus the wf predicate on the public fields searches for a failing input."),
     note=("Which theorems are discharged is reported by the check (theorems k/k) and listed in coq/Props/C06.v; behaviour on duplicate "
-          "positions / malformed raw arrays is tied but not specified; Vec::sort_by_key is modelled as the stable sort (trusted)."),
+          "positions is specified and proved although outside the quantifier, on malformed raw arrays tied but not specified; Vec::sort_by_key is modelled as the stable sort (trusted)."),
     technique="Coq proof over an abstract arithmetic + model/implementation differential execution (vm_compute vs Rust executor) + reference-model search",
     design="7 (C06)")
 
